@@ -347,7 +347,7 @@ func storesDynamicCallResult(p *Prog, lc LoopClass) (bool, string) {
 var reviewedLoops = map[string]reviewedLoop{
 	"(*keymap.Engine).dispatchKeys:loop#0":           {"queue shrink: every iteration pops one key (core.PopKey) and the queue is finite; exit when PeekKey reports empty", everyIterationCalls("core.PopKey")},
 	"(*keymap.Engine).dispatchCharacter:loop#0":      {"every iteration appends one popped continuation byte to the character (or returns): utf8.FullRune holds after at most utf8.UTFMax bytes", everyIterationCalls("core.PopKey")},
-	"(*history.Sources).Undo:loop#0":                 {"lineHistory.pos is incremented every iteration and the loop exits when pos > len(items)", fieldCounter(lhT, "pos")},
+	"(*history.Sources).Undo:loop#0":                 {"the local copy of the undo position is incremented every iteration and the loop returns when it exceeds len(items)", phiStepped(true)},
 	"(*history.Sources).match:loop#0":                {"`for done(i) { i = move(i) }` with move = ±1 on the counter and done comparing it with 0 / Len()", closureCounter},
 	"history.Complete:loop#0":                        {"same closure-counter form as Sources.match", closureCounter},
 	"(*core.Selection).matchKeyword:loop#0":          {"closure-counter form over the matcher list; the counter is a captured variable assigned move(kpos) before every `continue`", storesDynamicCallResult},
@@ -597,7 +597,6 @@ func checkC01(c *Ctx) {
 	checkNilFuncCall(c)
 	checkMacroBudget(c)
 	checkSourcePos(c)
-	checkRound5Small(c, "C01")
 }
 
 // ---------------- recursion ----------------
